@@ -115,13 +115,20 @@ def main(tier):
                     ck.ok("R-C06-3", key)
         # R-C06-2
         ref = sweeps[("SmootherGive", 2)]
-        for k2 in (("SmootherTake", 2), ("SmootherGive", 1), ("SmootherTake", 1)):
+        # the give smoother under the other three cache-flag combinations (take requires both caches)
+        for fl in ((True, False), (False, True), (False, False)):
+            sweeps[("SmootherGive", 2, fl)] = tab_smoother.Sweep(S, "SmootherGive", "Smoother", "smoothing", threads=2, flags=fl)
+        for k2 in (("SmootherTake", 2), ("SmootherGive", 1), ("SmootherTake", 1), ("SmootherGive", 2, (True, False)), ("SmootherGive", 2, (False, True)), ("SmootherGive", 2, (False, False))):
             sw = sweeps[k2]
-            key = "%s threads=%d vs give/parallel %s" % (k2[0], k2[1], sk)
+            key = "%s threads=%d%s vs give/parallel %s" % (k2[0], k2[1], (" caches=(%s,%s)" % k2[2]) if len(k2) > 2 else "", sk)
             ck.instance("R-C06-2", key)
             bad = None
-            d = tab_ops.diff_tables(ref.Asc, sw.Asc)
-            if d:
+            if len(k2) > 2 and (sw.oob or sw.asc_problems or sw.solved_twice):
+                bad = ("out-of-range access %s[%s] (length %s) at %s" % sw.oob[0]) if sw.oob else (sw.asc_problems[0] if sw.asc_problems else "a node is solved twice")
+            d = tab_ops.diff_tables(ref.Asc, sw.Asc) if not bad else None
+            if bad:
+                pass
+            elif d:
                 i, c, a, b = d[0]
                 bad = "A_sc[%s,%s]: %s vs %s" % (S.rt(i), S.rt(c), a, b)
             else:
@@ -138,7 +145,7 @@ def main(tier):
                     if bad:
                         break
             if bad:
-                ck.violation("R-C06-2", "%s-%s:differs" % (k2[0], "parallel" if k2[1] > 1 else "sequential"), ir.locstr(prog.fn(k2[0] + "::smoothing")), "%s: %s" % (key, bad))
+                ck.violation("R-C06-2", "%s-%s:differs" % (k2[0], ("caches-%s-%s" % k2[2]) if len(k2) > 2 else ("parallel" if k2[1] > 1 else "sequential")), ir.locstr(prog.fn(k2[0] + "::smoothing")), "%s: %s" % (key, bad))
             else:
                 ck.ok("R-C06-2", key)
     return ck.finish(
